@@ -132,7 +132,7 @@ def spec_suffix(n):
 
 
 class Decl:
-    __slots__ = ("qname", "node", "kind", "pattern", "file", "line", "parent", "inst_args")
+    __slots__ = ("qname", "node", "kind", "pattern", "file", "line", "parent", "inst_args", "tparams")
 
     def __init__(self, qname, node, pattern, parent, inst_args=None):
         self.qname = qname
@@ -142,6 +142,7 @@ class Decl:
         self.file, self.line = loc(node)
         self.parent = parent
         self.inst_args = inst_args
+        self.tparams = None       # template parameter names of a function template (declaration order)
 
     def __repr__(self):
         return "<%s %s %s%s>" % (self.kind, self.qname, "pattern" if self.pattern else "inst", "")
@@ -187,9 +188,14 @@ def index(objs):
                 rec(c, q, pattern, d)
         elif k == "FunctionTemplateDecl":
             seen = False
+            tps = [c.get("name") for c in kids(n) if c.get("kind") in ("NonTypeTemplateParmDecl", "TemplateTypeParmDecl", "TemplateTemplateParmDecl")]
             for c in kids(n):
                 if c.get("kind") in FUNCS:
+                    before = len(out)
                     rec(c, prefix, pattern and not seen, parent)
+                    for d_ in out[before:]:
+                        if d_.node is c:
+                            d_.tparams = tps
                     seen = True
         elif k in FUNCS:
             if n.get("isImplicit"):
